@@ -3,3 +3,7 @@ class VersionConversion:
   def _to_gfa1_a(self): return self.to_list()
   def _to_gfa2_a(self): return self.to_list()
 
+  # (a comment is not a list of tab-separated fields: its string form,
+  # which is the same in all versions, is "#" + spacer + content)
+  def to_gfa1_s(self): return str(self)
+  def to_gfa2_s(self): return str(self)
